@@ -767,7 +767,7 @@ def do_v3_case(req):
     p = KdBufParser({99: 1}, {1: 'stale'})
     try:
         got = list(p.parse(_BudgetReader(data, 8 * len(data) + 200)))
-    except TimeoutError:
+    except (TimeoutError, BudgetExceeded):
         return {'violates': True, 'what': 'parsing a well-formed version-3 dump does not terminate (read budget of 8 reads per byte exhausted)'}
     except BaseException as ex:  # noqa
         return {'violates': True, 'what': 'parsing a well-formed version-3 dump raised %s: %s' % (type(ex).__name__, ex)}
@@ -856,23 +856,37 @@ def do_v3_blocks_search(req):
     return {'tried': tried, 'bound': '<= 3 threads, <= 7 events in <= 3 chunks, <= 6 metadata/log blocks, both paddings', 'found': None}
 
 
+class BudgetExceeded(BaseException):
+    """not an Exception: library code that wraps every Exception of a read (construct does) must not swallow it"""
+
+
 class _BudgetReader:
+    """stream with a budget linear in its length: number of read calls, and number of bytes handed out (reading the same
+    bytes again and again is not "an amount of reading linear in the length")"""
+
     def __init__(self, data, budget):
         import io
         self.b = io.BytesIO(data)
         self.budget = budget
+        self.bytes_budget = 24 * len(data) + 8192
+
+    def _charge(self, got):
+        self.budget -= 1
+        self.bytes_budget -= got
+        if self.budget < 0:
+            raise BudgetExceeded('read budget exhausted (number of read calls)')
+        if self.bytes_budget < 0:
+            raise BudgetExceeded('read budget exhausted (bytes read: more than 24 times the length of the stream)')
 
     def read(self, n=-1):
-        self.budget -= 1
-        if self.budget < 0:
-            raise TimeoutError('read budget exhausted')
-        return self.b.read(n)
+        r = self.b.read(n)
+        self._charge(len(r))
+        return r
 
     def readinto(self, buf):
-        self.budget -= 1
-        if self.budget < 0:
-            raise TimeoutError('read budget exhausted')
-        return self.b.readinto(buf)
+        r = self.b.readinto(buf)
+        self._charge(r or 0)
+        return r
 
     def seek(self, *a):
         return self.b.seek(*a)
@@ -896,7 +910,7 @@ def do_truncation_case(req):
     try:
         for e in KdBufParser({}, {}).parse(_BudgetReader(data[:cut], 4 * len(data) + 100)):
             got.append(e)
-    except TimeoutError as ex:
+    except (TimeoutError, BudgetExceeded) as ex:
         return {'violates': True, 'what': 'parsing the dump cut at byte %d of %d does not stop: %s' % (cut, len(data), ex)}
     except BaseException as ex:  # noqa
         err = type(ex).__name__
@@ -919,7 +933,7 @@ def do_truncation_case(req):
                 it_ = getattr(p, meth)(_BudgetReader(blob, 4 * len(data) + 100))
                 for x in (it_ if limit is None else itertools.islice(it_, limit)):
                     out.append(x if isinstance(x, str) else str(x))
-            except TimeoutError as ex:
+            except (TimeoutError, BudgetExceeded) as ex:
                 raise
             except BaseException:  # noqa
                 pass
@@ -936,7 +950,7 @@ def do_truncation_case(req):
                     ll = listing(meth, data[:cut], n)
                     if ll != lc[:n]:
                         return {'violates': True, 'what': '%s of the dump cut at byte %d limited to %d items is %r, unlimited it starts %r' % (meth, cut, n, ll, lc[:n])}
-            except TimeoutError as ex:
+            except (TimeoutError, BudgetExceeded) as ex:
                 return {'violates': True, 'what': '%s on the dump cut at byte %d of %d does not stop: %s' % (meth, cut, len(data), ex)}
     return {'violates': False, 'error': err, 'events': len(ev_got)}
 
@@ -963,12 +977,16 @@ def do_truncation_search(req):
              rec(18, 9, 'BSC_getpid', 1), rec(19, 9, 'BSC_getpid', 2, (0, 5, 0, 0))]
     dumps.append(S.build_v2([(1, 5, 'proc'), (2, 6, 'x')], 0, story))
     dumps.append(S.build_v3([(1, 5, 'proc')], [recs[:2], recs[2:]], [('trace_codes', b'0x4 A\n')], filler=b'zz'))
+    # a long trailer: reading a cut dump must stay linear in its length
+    dumps.append(S.build_v3([(1, 5, 'proc')], [recs[:1]], [('trace_codes', b'0x4 A\n' * 700), ('trace_codes', b'0x8 B\n' * 100)], filler=b'zz'))
     tried = 0
     for data in dumps:
         cuts = list(range(0, len(data) + 1))
         if len(cuts) > budget:
             step = max(1, len(cuts) // budget)
             cuts = sorted(set(cuts[::step] + cuts[-70:] + [rnd.randrange(len(data)) for _ in range(10)] + [c for c in cuts if c % 32 in (0, 1)]))
+            if len(data) > 3000:
+                cuts = sorted(set(list(range(0, len(data), 211)) + cuts[-12:]))
         for cut in cuts:
             tried += 1
             r = do_truncation_case({'data': data.hex(), 'cut': cut})
@@ -1817,7 +1835,7 @@ def do_seek_case(req):
         pos = r.tell()
     except EOFError:
         pos = None
-    except TimeoutError as ex:
+    except (TimeoutError, BudgetExceeded) as ex:
         return {'violates': True, 'what': 'seek_until does not stop on %d bytes: %s' % (len(data), ex)}
     except BaseException as ex:  # noqa
         return {'violates': True, 'what': 'seek_until raised %s: %s' % (type(ex).__name__, ex)}
@@ -1858,3 +1876,58 @@ def do_seek_search(req):
 
 
 HANDLERS.update({'seek_case': do_seek_case, 'seek_search': do_seek_search})
+
+
+# ------------------------------------------------------------------------------ C18 replays (names are Darwin's)
+def do_errno_text_case(req):
+    import struct
+    from pykdebugparser.traces_parser import TracesParser
+    codes = _cached_codes()
+    inv = {v: k for k, v in codes.items()}
+    p = TracesParser(codes, {}, {})
+    p.feed(_ev_raw(inv['BSC_sys_close'], 5, 1, struct.pack('<QQQQ', 3, 0, 0, 0)))
+    t = p.feed(_ev_raw(inv['BSC_sys_close'], 5, 2, struct.pack('<QQQQ', req['code'], 0, 0, 0)))
+    text = str(t)
+    want = 'errno: %s(%d)' % (req['want'], req['code']) if req.get('want') else 'errno: %d' % req['code']
+    return {'violates': want not in text, 'text': text, 'what': 'close() failing with error %d reads %r, Darwin names it %r' % (req['code'], text, want)}
+
+
+def do_named_parameter_case(req):
+    import struct
+    from pykdebugparser.traces_parser import TracesParser
+    from spec import darwin
+    codes = _cached_codes()
+    inv = {v: k for k, v in codes.items()}
+    table = getattr(darwin, req['table'])
+    for value, nm in sorted(table.items()):
+        p = TracesParser(codes, {}, {})
+        vals = [1, 1, 0, 0]
+        vals[req['position']] = value
+        try:
+            p.feed(_ev_raw(inv[req['decoder']], 5, 1, struct.pack('<QQQQ', *vals)))
+            t = p.feed(_ev_raw(inv[req['decoder']], 5, 2, struct.pack('<QQQQ', 0, 3, 0, 0)))
+            text = str(t)
+        except BaseException as ex:  # noqa
+            return {'violates': True, 'what': '%s with parameter %d = %d raised %s' % (req['decoder'], req['position'], value, type(ex).__name__)}
+        if nm not in text:
+            return {'violates': True, 'text': text, 'what': '%s with parameter %d = %d reads %r, Darwin names the value %s' % (req['decoder'], req['position'], value, text, nm)}
+    return {'violates': False}
+
+
+HANDLERS.update({'errno_text_case': do_errno_text_case, 'named_parameter_case': do_named_parameter_case})
+
+
+def do_fault_record_case(req):
+    import struct
+    from pykdebugparser.traces_parser import TracesParser
+    codes = _cached_codes()
+    inv = {v: k for k, v in codes.items()}
+    p = TracesParser(codes, {}, {})
+    vals = (0x7000, (0x21 << 16) | (3 << 8) | 2, 0x4000, 321)
+    t = p.feed(_ev_raw(inv[req['name']], 5, 0, struct.pack('<QQQQ', *vals)))
+    got = {k: getattr(t, k, None) for k in ('vaddr', 'user_tag', 'offset', 'pid')}
+    want = {'vaddr': 0x7000, 'user_tag': 0x21, 'offset': 0x4000, 'pid': 321}
+    return {'violates': got != want, 'what': '%s with the arguments %r decodes to %r, the kernel logs %r' % (req['name'], vals, got, want)}
+
+
+HANDLERS['fault_record_case'] = do_fault_record_case
